@@ -76,6 +76,49 @@ pub struct Fail {
     pub what: String,
     /// Number of leading operations of the sequence needed to reach the failure.
     pub upto: usize,
+    /// The item whose read / write result was wrong (signatures of such failures are completed
+    /// with the shape of the minimal failing sequence, see `final_signature`).
+    pub item: Option<Item>,
+}
+
+/// Items are named by order of first appearance of their agent and name (`a0n0`, `a0n1`, ...),
+/// so that the signature describes the shape of the minimal sequence, not the concrete names.
+pub fn final_signature(f: &Fail, ops: &[Op]) -> String {
+    let Some(target) = f.item else { return f.sig.clone() };
+    let mut agents: Vec<u8> = vec![];
+    let mut names: Vec<u8> = vec![];
+    let lab_agent = |a: u8, agents: &mut Vec<u8>| -> usize {
+        if let Some(p) = agents.iter().position(|x| *x == a) {
+            p
+        } else {
+            agents.push(a);
+            agents.len() - 1
+        }
+    };
+    let mut parts = vec![];
+    for op in &ops[..f.upto.min(ops.len())] {
+        match op {
+            Op::Reopen => parts.push("reopen".to_string()),
+            Op::Reacquire(a, _) => {
+                let ai = lab_agent(*a, &mut agents);
+                parts.push(format!("{}(a{})", op.kind(), ai));
+            }
+            _ => {
+                let i = op.item().unwrap();
+                let ai = lab_agent(i.a, &mut agents);
+                let ni = if let Some(p) = names.iter().position(|x| *x == i.n) {
+                    p
+                } else {
+                    names.push(i.n);
+                    names.len() - 1
+                };
+                parts.push(format!("{}(a{}n{})", op.kind(), ai, ni));
+            }
+        }
+    }
+    let ai = lab_agent(target.a, &mut agents);
+    let ni = names.iter().position(|x| *x == target.n).unwrap_or(names.len());
+    format!("{} at=a{}n{} after=[{}]", f.sig, ai, ni, parts.join(","))
 }
 
 /// The in-memory server persistence of swimos_server_app is private; only the plane store is
@@ -155,7 +198,7 @@ impl<S: ServerPersistence, F: Fn() -> Result<S, StoreError>> Exec<S, F> {
     }
 
     fn fail(&self, sig: String, what: String) -> Fail {
-        Fail { sig: format!("store={} {}", self.cfg.store, sig), what, upto: self.step }
+        Fail { sig: format!("store={} {}", self.cfg.store, sig), what, upto: self.step, item: None }
     }
 
     pub fn ensure_open(&mut self) -> Result<(), Fail> {
@@ -399,10 +442,12 @@ impl<S: ServerPersistence, F: Fn() -> Result<S, StoreError>> Exec<S, F> {
 
     fn read_fail(&self, read: &'static str, item: Item, diff: &str, what: String) -> Fail {
         let (lw, rel) = self.rel(item);
-        self.fail(
-            format!("law=read_equals_reference read={} diff={} last_write={} target={} since_write={}", read, diff, lw, rel, self.since_write),
-            what,
-        )
+        let mut f = self.fail(
+            format!("law=read_equals_reference read={} diff={}", read, diff),
+            format!("{} (last successful write: {} on {}; since then: {})", what, lw, rel, self.since_write),
+        );
+        f.item = Some(item);
+        f
     }
 
     pub fn read_value(&mut self, item: Item) -> Result<(), Fail> {
@@ -509,11 +554,19 @@ impl<S: ServerPersistence, F: Fn() -> Result<S, StoreError>> Exec<S, F> {
                 Ok(())
             }
             (Ok(Err(_)), Expect::Err) => Ok(()),
-            (Ok(Err(e)), Expect::Ok(())) => Err(self.fail(format!("law=op_result op={} expected=ok got=err", kind), format!("{} on {} failed: {:?}", kind, item.text(), e))),
-            (Ok(Ok(())), Expect::Err) => Err(self.fail(
-                format!("law=op_result op={} expected=err got=ok", kind),
-                format!("{} on {} succeeded although the item holds the other kind (wrong-kind access must be an error)", kind, item.text()),
-            )),
+            (Ok(Err(e)), Expect::Ok(())) => {
+                let mut f = self.fail(format!("law=op_result op={} expected=ok got=err", kind), format!("{} on {} failed: {:?}", kind, item.text(), e));
+                f.item = Some(item);
+                Err(f)
+            }
+            (Ok(Ok(())), Expect::Err) => {
+                let mut f = self.fail(
+                    format!("law=op_result op={} expected=err got=ok", kind),
+                    format!("{} on {} succeeded although the item holds the other kind (wrong-kind access must be an error)", kind, item.text()),
+                );
+                f.item = Some(item);
+                Err(f)
+            }
         }
     }
 
